@@ -265,9 +265,9 @@ def types_prelude(structs):
     enums, inners = R.required_types(structs)
     out = []
     for name in sorted(enums):
-        out.append(R.enum_decl(enums[name]))
+        out.append(R.enum_decl(enums[name], derive_debug=True))
     for n, _ in sorted(inners):
-        out.append(R.inner_decl(n))
+        out.append(R.inner_decl(n, debug=True))
     return "\n".join(out) + "\n"
 
 
@@ -289,12 +289,17 @@ def c17(tier):
     nprobes = nfail = 0
     codes = {}
     outcomes = set()
+    debug_rejected = 0
     for j, (kname, s, probes) in enumerate(meta):
         text = R.struct_decl(s)
+        f0 = [x for x in s.fields if x.name == "f0"][0]
         if j in errs:
+            if s.debug and (not f0.readable or f0.arr):
+                # C19: not all fields readable scalars => `debug` does not compile. Nothing to probe.
+                debug_rejected += 1
+                continue
             chk.add_violation(f"declaration rejected: {text}", "decl_rejected", f"API layout does not compile: {text} :: {errs[j][0]}", decl_replay(text, "accept", prelude=prelude))
             continue
-        f0 = [x for x in s.fields if x.name == "f0"][0]
         for k, t, expect_ok in probes:
             nprobes += 1
             nfail += (not expect_ok)
@@ -320,7 +325,8 @@ def c17(tier):
     chk.transitions += nprobes + len(cases)
     chk.validated += nprobes
     chk.distinct_outcomes = len(outcomes)     # distinct (field kind, access, probe kind, rustc verdict) tuples observed
-    chk.extra.update({"structs": len(cases), "probes": nprobes, "probes_expected_to_fail": nfail, "rejection_error_codes": codes})
+    chk.extra.update({"structs": len(cases), "probes": nprobes, "probes_expected_to_fail": nfail, "rejection_error_codes": codes,
+                      "debug_structs_with_unreadable_or_array_field_rejected": debug_rejected})
     for j in (0, len(meta) // 2, len(meta) - 3):
         kname, s, probes = meta[j]
         chk.sample({"declaration": R.struct_decl(s), "probes": [{"text": t, "model_expects": "compiles" if ok else "rejected"} for _, t, ok in probes]})
@@ -328,7 +334,8 @@ def c17(tier):
         core.vacuous("C17: no variation in probe verdicts")
     chk.bounds.append("field kinds {bool, uN, native, signed, bool/uN arrays, multi-range, multi-range array, exhaustive enum, Option<enum>, enum arrays, nested bitfield, high/ full-width fields} "
                       "x access {r, w, rw, none} x bases " + ("{u8,u12,u32,u128}" if tier == 'quick' else "{u8,u12,u16,u24,u32,u48,u64,u100,u128}") +
-                      " x {alone, next to an rw field (both orders)}; probes: getter, with_, set_, builder step at every chain position, complete builder chain")
+                      " x {alone, next to an rw field (both orders), alone with the `debug` option}; probes: getter, with_, set_, builder step at every chain position, complete builder chain; "
+                      "a `debug` struct whose field is not a readable scalar may be rejected as a whole (C19) - if it is accepted its surface is probed like any other")
     return chk.finish()
 
 
